@@ -197,8 +197,8 @@ func (a *Real64) Reset() {
 // Set the state to b. This includes the value and all derivatives.
 func (a *Real64) Set(b ConstScalar) {
   a.Value = b.GetFloat64()
-  a.Order = b.GetOrder()
   a.Alloc(b.GetN(), b.GetOrder())
+  a.Order = b.GetOrder()
   if a.Order >= 1 {
     for i := 0; i < b.GetN(); i++ {
       a.Derivative[i] = float64(b.GetDerivative(i))
@@ -214,8 +214,8 @@ func (a *Real64) Set(b ConstScalar) {
 }
 func (a *Real64) SET(b *Real64) {
   a.Value = b.GetFloat64()
-  a.Order = b.GetOrder()
   a.Alloc(b.GetN(), b.GetOrder())
+  a.Order = b.GetOrder()
   if a.Order >= 1 {
     for i := 0; i < b.GetN(); i++ {
       a.Derivative[i] = float64(b.GetDerivative(i))
